@@ -198,3 +198,139 @@ func (f *FuncFacts) boolReturn(ri *retInfo) ([][]string, bool) {
 	}
 	return fail, true
 }
+
+// boolTerm renders a boolean phi (`a && b`, `a || (b && c)` used as a value) or the result of an
+// unreviewed predicate helper as the disjunction of the branch conjunctions under which it is true.
+func (c *Canon) boolTerm(v ssa.Value) (string, bool) {
+	if c.owner == nil {
+		return "", false
+	}
+	if b, ok := v.Type().Underlying().(*types.Basic); !ok || b.Kind() != types.Bool {
+		return "", false
+	}
+	switch v.(type) {
+	case *ssa.Phi, *ssa.Call:
+	default:
+		return "", false
+	}
+	paths, ok := c.owner.condPaths(v, true, false, 0)
+	if !ok {
+		return "", false
+	}
+	if len(paths) == 0 {
+		return "false", true
+	}
+	set := map[string]bool{}
+	for _, p := range paths {
+		k := pathKey(p)
+		if k == "" {
+			return "true", true
+		}
+		set[k] = true
+	}
+	var ks []string
+	for k := range set {
+		ks = append(ks, k)
+	}
+	sort.Strings(ks)
+	return "[" + strings.Join(ks, " || ") + "]", true
+}
+
+// selPhi renders a phi that is not loop-carried as a selection: the distinct incoming values, each
+// with the disjunction of branch conjunctions (relative to the immediate dominator of the join)
+// under which it is the one that arrives. `x := a; if p && q { x = b }` and the same with `p && q`
+// moved into a predicate helper, or with the branches swapped under the negated condition, give the
+// same term.
+func (c *Canon) selPhi(v *ssa.Phi, d int) (string, bool) {
+	f := c.owner
+	if f == nil || v.Parent() != f.fn || len(v.Edges) < 2 || len(v.Edges) > 8 {
+		return "", false
+	}
+	blk := v.Block()
+	idom := blk.Idom()
+	if idom == nil {
+		return "", false
+	}
+	for _, p := range blk.Preds {
+		if blk.Dominates(p) {
+			return "", false
+		}
+	}
+	rej, _ := f.rejEdges()
+	base := map[[2]int]bool{}
+	for _, ce := range f.context(idom, rej) {
+		base[[2]int{ce.blk.Index, ce.succ}] = true
+	}
+	groups := map[string]map[string]bool{}
+	for i, e := range v.Edges {
+		val := c.termD(e, d+1)
+		pred := blk.Preds[i]
+		var atoms []string
+		for _, ce := range f.context(pred, rej) {
+			if !base[[2]int{ce.blk.Index, ce.succ}] {
+				atoms = append(atoms, ce.atom)
+			}
+		}
+		alts := [][]string{nil}
+		if iff := f.ifOf(pred); iff != nil && pred.Succs[0] != pred.Succs[1] {
+			for k, sc := range pred.Succs {
+				if sc != blk {
+					continue
+				}
+				if la, ok := f.loopCondAtom(pred, iff, k); ok {
+					alts = [][]string{{la}}
+				} else if ps, ok := f.condPaths(iff.Cond, k == 0, false, 0); ok && len(ps) > 0 {
+					alts = ps
+				} else {
+					alts = [][]string{{c.condAtom(iff.Cond, k == 0)}}
+				}
+			}
+		}
+		if groups[val] == nil {
+			groups[val] = map[string]bool{}
+		}
+		for _, alt := range alts {
+			k := pathKey(append(append([]string{}, atoms...), alt...))
+			if k == "" {
+				return "", false // arrives unconditionally: not a selection
+			}
+			groups[val][k] = true
+		}
+	}
+	if len(groups) < 2 || len(groups) > 4 {
+		return "", false
+	}
+	type grp struct {
+		val  string
+		n    int
+		cond string
+	}
+	var gs []grp
+	for val, ks := range groups {
+		var xs []string
+		for k := range ks {
+			xs = append(xs, k)
+		}
+		sort.Strings(xs)
+		if len(xs) > maxCondPaths {
+			return "", false
+		}
+		cond := strings.Join(xs, " || ")
+		if len(xs) > 1 || strings.Contains(cond, " && ") {
+			cond = "[" + cond + "]"
+		}
+		gs = append(gs, grp{val, len(xs), cond})
+	}
+	sort.Slice(gs, func(i, j int) bool {
+		if gs[i].n != gs[j].n {
+			return gs[i].n < gs[j].n
+		}
+		return gs[i].cond < gs[j].cond
+	})
+	// the last group is "otherwise"
+	s := gs[len(gs)-1].val
+	for i := len(gs) - 2; i >= 0; i-- {
+		s = "ite(" + gs[i].cond + "; " + gs[i].val + "; " + s + ")"
+	}
+	return s, true
+}
